@@ -67,7 +67,13 @@ func genModel(p *simkit.Plan, r *simkit.Rand, tier string) {
 		c["mode"] = int64(simkit.Pick(r, []int{0, 0, 1}))
 	}
 	c["sched_sticky"] = int64(simkit.Pick(r, []int{0, 40, 80}))
-	untracked := p.Scenario == "model-untracked"
+	untracked := p.Scenario == "model-untracked" || p.Scenario == "disk-untracked"
+	onDisk := strings.HasPrefix(p.Scenario, "disk")
+	if onDisk {
+		// Which activities park at syscall-level gates in this run.
+		c["fs_gates"] = int64(simkit.Pick(r, []int{0, 1, 2, 3, 3, 63, 31}))
+		c["internal_staging"] = int64(r.Intn(2))
+	}
 	var id int64 = 100
 	// Initial content (applied before the session exists).
 	for i := r.Range(0, 8); i > 0; i-- {
@@ -83,6 +89,9 @@ func genModel(p *simkit.Plan, r *simkit.Rand, tier string) {
 	n := r.Range(3, 25)
 	if tier == "thorough" {
 		n = r.Range(3, 60)
+	}
+	if onDisk {
+		n = r.Range(3, 14)
 	}
 	lifecycle := p.Scenario == "lifecycle"
 	for i := 0; i < n; i++ {
@@ -120,7 +129,7 @@ func genModel(p *simkit.Plan, r *simkit.Rand, tier string) {
 			}
 		}
 	}
-	if p.Scenario == "model-halt" {
+	if p.Scenario == "model-halt" || p.Scenario == "disk-halt" {
 		// Converge first, then one root event, then give it time.
 		c["halt_side"] = int64(r.Intn(2))
 		c["halt_kind"] = int64(r.Intn(4)) // 0 delete, 1 replace by file, 2 empty, 3 control: empty both
